@@ -4,6 +4,8 @@ import (
 	"context"
 	"sync"
 	"sync/atomic"
+
+	"github.com/openfga/openfga/internal/verifhook"
 )
 
 // Reporter updates a single entry in a [StatusPool]. Not safe for concurrent use.
@@ -59,6 +61,11 @@ func NewStatusPool() *StatusPool {
 // inc atomically increments both the total and in-flight counters.
 func (sp *StatusPool) inc() int64 {
 	sp.total.Add(1)
+	if verifhook.Enabled {
+		value := sp.inflight.Add(1)
+		verifhook.Event("sp.inc", sp, value)
+		return value
+	}
 	return sp.inflight.Add(1)
 }
 
@@ -66,10 +73,12 @@ func (sp *StatusPool) inc() int64 {
 // quiescence channel when it reaches zero.
 func (sp *StatusPool) dec() int64 {
 	value := sp.inflight.Add(-1)
+	verifhook.Event("sp.dec", sp, value)
 	if value == 0 {
 		// Swap ensures the channel is closed exactly once even if
 		// multiple goroutines race to decrement to zero.
 		if !sp.zero.Swap(true) {
+			verifhook.Event("sp.quiescence", sp)
 			close(sp.quiescence)
 		}
 	}
@@ -81,6 +90,7 @@ func (sp *StatusPool) dec() int64 {
 func (sp *StatusPool) Register() *Reporter {
 	sp.pool = append(sp.pool, true)
 	index := len(sp.pool) - 1
+	verifhook.Event("sp.register", sp, index)
 
 	return &Reporter{
 		index:  index,
@@ -96,12 +106,14 @@ func (sp *StatusPool) set(index int) {
 
 	if sp.pool[index] {
 		sp.pool[index] = false
+		verifhook.Event("sp.report", sp, index)
 
 		for _, value := range sp.pool {
 			if value {
 				return
 			}
 		}
+		verifhook.Event("sp.ready", sp)
 		close(sp.ready)
 	}
 }
